@@ -92,3 +92,15 @@ package domainmatcher
 //@   trusted
 //@   modifies nothing
 //@   ensures ok == mmatch(m, n)
+
+//@ func NewMixMatcher() (m *MixMatcher)
+//@   trusted
+//@   modifies nothing
+//@   ensures m != nil && fresh(m)
+//@ func LoadMixMatcherFromReader(m *MixMatcher, r io.Reader) (err error)
+//@   trusted
+//@   requires m != nil
+//@   modifies pkgheaps(domain_matcher)
+//@ func (m *MixMatcher) Len() (n int)
+//@   trusted
+//@   modifies nothing
